@@ -80,6 +80,13 @@ theorem logOK_append (s0 : σ) (l : List (Nat × Op × Res)) (e : Nat × Op × R
   | nil => obtain ⟨t, op, r⟩ := e; simp [LogOK, seqState]
   | cons x l ih => obtain ⟨t, op, r⟩ := x; simp [LogOK, seqState, ih, and_assoc]
 
+/-- a logged result is the atomic result at its place: after the calls logged before it -/
+theorem logOK_at (s0 : σ) (pre post : List (Nat × Op × Res)) (e : Nat × Op × Res)
+    (h : LogOK prog s0 (pre ++ e :: post)) : e.2.2 = (atomic (prog e.2.1) (seqState prog s0 pre)).2 := by
+  induction pre generalizing s0 with
+  | nil => obtain ⟨t, op, r⟩ := e; exact h.1
+  | cons x pre ih => obtain ⟨t, op, r⟩ := x; exact ih _ h.2
+
 def NotInCS : Phase σ Loc Op Res → Prop
   | .inCS _ _ _ => False
   | _ => True
